@@ -116,6 +116,98 @@ class Repo:
             self._index_module(m)
         for c in self.classes.values():
             c.bases = [self.resolve(c.module, b) or b for b in c.base_exprs]
+        if os.environ.get("TLSA_NO_INLINE_CONSTS") != "1":
+            self._inline_string_constants()
+            self._inline_return_temps()
+
+    def _inline_return_temps(self) -> None:
+        """`x = <expr>` immediately followed by `return x`, with x bound and used nowhere else in the function, is
+        presented to the rules as `return <expr>` (the statement a maintainer may split or join at will).  Positions of
+        the expression's nodes are kept, so call-graph sites still match."""
+        def blocks(node):
+            for field in ("body", "orelse", "finalbody"):
+                b = getattr(node, field, None)
+                if isinstance(b, list) and b and isinstance(b[0], ast.stmt):
+                    yield b
+            for h in getattr(node, "handlers", []) or []:
+                yield h.body
+            for c in getattr(node, "cases", []) or []:
+                yield c.body
+
+        for m in self.modules.values():
+            for fn in [n for n in ast.walk(m.tree) if isinstance(n, (ast.FunctionDef, ast.AsyncFunctionDef))]:
+                uses: dict[str, int] = {}
+                for n in ast.walk(fn):
+                    if isinstance(n, ast.Name):
+                        uses[n.id] = uses.get(n.id, 0) + 1
+                for holder in ast.walk(fn):
+                    if isinstance(holder, (ast.FunctionDef, ast.AsyncFunctionDef)) and holder is not fn:
+                        continue
+                    for b in blocks(holder):
+                        i = 0
+                        while i + 1 < len(b):
+                            st, nx = b[i], b[i + 1]
+                            tg = st.targets[0] if isinstance(st, ast.Assign) and len(st.targets) == 1 else st.target if isinstance(st, ast.AnnAssign) and st.value is not None else None
+                            if isinstance(tg, ast.Name) and isinstance(nx, ast.Return) and isinstance(nx.value, ast.Name) and nx.value.id == tg.id and uses.get(tg.id) == 2:
+                                nx.value = st.value
+                                del b[i]
+                                continue
+                            i += 1
+
+    # ---------------------------------------------------- constant inlining
+    def _inline_string_constants(self) -> None:
+        """Inside function bodies, a reference to a module-level *string* constant (bound exactly once at module level to
+        a str literal, never re-bound, never declared global; also when imported from another src module) is replaced by
+        the literal itself.  Every rule then sees `node.type == "call_expression"` whether the author wrote the literal
+        or hoisted it to a constant - the folding is done once, here, instead of in each rule.  Collections and numbers
+        keep their names (rules speak about `_HARDCODED_EXCLUDE_DIRS`, `DEFAULT_MAX_...` by name)."""
+        table: dict[str, dict[str, str]] = {}
+        for m in self.modules.values():
+            counts: dict[str, int] = {}
+            vals: dict[str, str] = {}
+            for st in m.tree.body:
+                tg, v = (st.targets[0], st.value) if isinstance(st, ast.Assign) and len(st.targets) == 1 else (st.target, st.value) if isinstance(st, ast.AnnAssign) else (None, None)
+                if isinstance(tg, ast.Name):
+                    counts[tg.id] = counts.get(tg.id, 0) + 1
+                    if isinstance(v, ast.Constant) and isinstance(v.value, str):
+                        vals[tg.id] = v.value
+            stored_elsewhere = set()
+            for n in ast.walk(m.tree):
+                if isinstance(n, ast.Global):
+                    stored_elsewhere |= set(n.names)
+            for st in m.tree.body:
+                for n in ast.walk(st):
+                    if isinstance(n, ast.Name) and isinstance(n.ctx, (ast.Store, ast.Del)) and not (isinstance(st, (ast.Assign, ast.AnnAssign)) and n is (st.targets[0] if isinstance(st, ast.Assign) else st.target)):
+                        if not isinstance(st, (ast.FunctionDef, ast.AsyncFunctionDef, ast.ClassDef)):
+                            stored_elsewhere.add(n.id)
+            table[m.name] = {k: v for k, v in vals.items() if counts.get(k) == 1 and k not in stored_elsewhere}
+        for m in self.modules.values():
+            consts = dict(table[m.name])
+            for local, q in m.imports.items():
+                mod, _, nm = q.rpartition(".")
+                if mod in table and nm in table[mod] and local not in consts:
+                    consts[local] = table[mod][nm]
+            if not consts:
+                continue
+            for fn in [n for n in ast.walk(m.tree) if isinstance(n, (ast.FunctionDef, ast.AsyncFunctionDef))]:
+                bound = {a.arg for a in ast.walk(fn) if isinstance(a, ast.arg)}
+                bound |= {n.id for n in ast.walk(fn) if isinstance(n, ast.Name) and isinstance(n.ctx, (ast.Store, ast.Del))}
+                bound |= {(a.asname or a.name).split(".")[0] for n in ast.walk(fn) if isinstance(n, (ast.Import, ast.ImportFrom)) for a in n.names}
+                skip = set()
+                for d in fn.decorator_list + fn.args.defaults + [x for x in fn.args.kw_defaults if x is not None]:
+                    skip |= {id(x) for x in ast.walk(d)}
+                for parent in ast.walk(fn):
+                    for field, val in ast.iter_fields(parent):
+                        if isinstance(val, list):
+                            for i, x in enumerate(val):
+                                if isinstance(x, ast.Name) and isinstance(x.ctx, ast.Load) and x.id in consts and x.id not in bound and id(x) not in skip:
+                                    val[i] = ast.copy_location(ast.Constant(value=consts[x.id]), x)
+                        elif isinstance(val, ast.Name) and isinstance(val.ctx, ast.Load) and val.id in consts and val.id not in bound and id(val) not in skip:
+                            if isinstance(parent, (ast.FunctionDef, ast.AsyncFunctionDef)) and field == "returns":
+                                continue
+                            if isinstance(parent, ast.arg):
+                                continue
+                            setattr(parent, field, ast.copy_location(ast.Constant(value=consts[val.id]), val))
 
     def _index_module(self, m: Module) -> None:
         pkg = m.name if m.is_pkg else m.name.rsplit(".", 1)[0] if "." in m.name else ""
